@@ -820,6 +820,22 @@ class Interp(object):
                 except (ValueError, IndexError) as e:
                     raise PyRaise(type(e).__name__)
             return Builtin('list.' + name, lm)
+        if isinstance(obj, list) and name in ('sort', 'reverse'):
+            def lsort(key=None, reverse=False):
+                if name == 'reverse':
+                    obj.reverse()
+                    return None
+
+                def k(v):
+                    r = self.call(key, [v], {}) if key is not None else v
+                    if isinstance(r, bool):
+                        return int(r)
+                    if is_scalar(r) and to_rat(r).is_const():
+                        return to_rat(r).constant()
+                    raise Undecided('sort key %r' % (r,))
+                obj.sort(key=k, reverse=bool(reverse))    # stable, like list.sort
+                return None
+            return Builtin('list.' + name, lsort)
         if isinstance(obj, dict) and name in ('pop', 'get'):
             def pop(k, d=None, obj=obj, name=name):
                 if name == 'pop':
